@@ -23,7 +23,7 @@ RULE = ("unit = (system, number of layers, option deviation); paths = fit_decomp
         "non-trivial = masks that forbid at least one source or >= 2 layers; distinct by (system, layers, mask, options)")
 ASSUMPTIONS = ["max_iter = 25 inside the check (every iteration is observed; convergence is not a clause)", "solver tolerances (SCS at its default accuracy): constraints 2e-3, descent 1e-3 (1 + loss0), optimality of the last factor 2e-2 + 2 % of the loss",
                "the descent clause needs the loss-per-iteration hook (DREYE_VERIF); without it the clause reports 'not observable' and asserts nothing"]
-BOUNDS = {"quick": "systems 2x3 (two K/baseline variants) and 3x3; layers 1-2; all 7 / 49 masks; options: defaults + every single deviation", "thorough": "plus 3x4 (15 / 225 masks, 3 layers with n=2..3), pairs of deviations"}
+BOUNDS = {"quick": "systems 2x3 (two K/baseline variants), 3x3, 3x3 with mixed lower bounds, 3x3 with non-uniform receptor weights; layers 1-2; all 7 / 49 masks; options: defaults + every single deviation", "thorough": "plus 3x4 (15 / 225 masks, 3 layers with n=2..3), pairs of deviations"}
 CAP_S = {"quick": 600, "thorough": 7200}
 TECHNIQUE = "all masks x layers x systems, options deviation-bounded; every alternating iteration observed through the hook; constraint / descent / last-factor-optimality / determinism oracles"
 LEVEL_TEXT = "every 0/1 mask with at least one source per layer is run for 1-2 (3) layers under the default options and every single option deviation; all constraints, exactness of the prediction, monotone loss on every iteration, optimality of the factor fitted last and bit-identical results for equal seeds are decided"
